@@ -191,6 +191,35 @@ func enumC04(c *oracleCfg, chk func(fam, in string)) {
 			chk("ctx-event", p+"on"+strings.ToLower(e.Name)+"=x")
 		}
 	}
+	// separator runs: every pair of HTML white-space bytes (and `/`) between the tag and the attribute,
+	// and white space on either side of `=`, for an event handler, `style` and a script URL
+	ws := []string{" ", "\t", "\n", "\x0c", "\r"}
+	var runs []string
+	for _, a := range append(append([]string{}, ws...), "/") {
+		for _, b := range ws {
+			runs = append(runs, a+b)
+		}
+	}
+	for _, a := range ws {
+		runs = append(runs, a+a+a, "/"+a+"/"+a)
+	}
+	for _, run := range runs {
+		for _, p := range []string{"<x", "x", "x'", "x\"", "x`", "<svg"} {
+			chk("sep-run", p+run+"onerror=alert(1)")
+			chk("sep-run", p+run+"style=x")
+			chk("sep-run", p+run+"href=javascript:alert(1)")
+		}
+	}
+	for _, a := range ws {
+		for _, b := range append([]string{""}, ws...) {
+			for _, q := range []string{"", "'", "\""} {
+				chk("eq-ws", "<a href"+a+"="+b+q+"javascript:alert(1)"+q+">")
+				chk("eq-ws", "<a href"+b+"="+a+q+"javascript:alert(1)"+q+">")
+				chk("eq-ws", "<x onload"+a+"="+b+q+"x"+q+">")
+				chk("eq-ws", "x onload"+b+"="+a+q+"x"+q)
+			}
+		}
+	}
 	// random obfuscations
 	rng := rand.New(rand.NewSource(c.seed*101 + 9))
 	n := int(30000 * c.scale)
